@@ -769,7 +769,12 @@ def _oracle_ol(case, obs):
         bad = [[i, e, p] for i, (e, p) in enumerate(cur) if p != base + i]
         blob = dict(fam=0, k=k, op=op, pre=pre, cur=cur, rc=rc, base=base, roa=roa, attached=attached, bad=bad)
         if attached:
-            if len(set(ids)) == len(ids) and bad:  # with one entity at two indexes the property cannot hold
+            # the claim is preservation: judged from a pre-state that satisfies it (positions = indices, no entity
+            # twice - with one entity at two indexes it cannot hold), and for the operations that renumber the
+            # whole list from any pre-state
+            pre_ok = len(set(e for e, _p in pre)) == len(pre) and all(p == base + i for i, (_e, p) in enumerate(pre))
+            renumbers = op[0] in (1, 2, 3, 6, 7, 14) and rc == 0
+            if len(set(ids)) == len(ids) and bad and (pre_ok or renumbers):
                 return _fail(
                     "after %s the entities at index %s have position %s (count_from=%d): %s"
                     % (op, [b[0] for b in bad], [b[2] for b in bad], base, cur), **blob)
@@ -790,7 +795,8 @@ def _oracle_ol(case, obs):
     last = obs[len(ops)] if len(obs) > len(ops) else []
     if last != [] and ops:
         cur = obs[len(ops) - 1][1]
-        if last != [e for e, _p in cur]:
+        # "persists that order" is claimed for a list whose positions equal the indices (c50_persisted_order)
+        if all(p == base + i for i, (_e, p) in enumerate(cur)) and last != [e for e, _p in cur]:
             return _fail("after flush the collection reloads as %s, in memory it is %s" % (last, cur), fam=0, k=len(ops), op="flush")
     return None
 
@@ -918,8 +924,8 @@ LEVEL_TEXT = (
     "with a witness reproduced on the implementation."
 )
 LEVEL_NOTE = (
-    "partial: the set-proxy theorems are stated for single-element operations and bulk updates by induction, the bulk "
-    "intersection/symmetric-difference operations are covered by correspondence + oracle only; custom ordering functions, "
+    "partial: the set-proxy theorem covers add/discard/remove/clear/update/difference_update/|=/-=; the bulk "
+    "intersection/symmetric-difference operations and pop() are covered by correspondence + oracle only; custom ordering functions, "
     "scalar proxies, proxies of proxies and lazy loading of the underlying collection are not modelled; the persisted rows "
     "are compared by the oracle (flush correctness itself is C30). No axioms."
 )
